@@ -10,8 +10,9 @@ import fcntl, hashlib, json, os, re, shutil, subprocess, sys, time
 
 VERIF = "/verif"
 REPO = os.environ.get("VERIF_REPO", "/repo")
-BUILD = os.path.join(VERIF, "build")
-OUT = os.path.join(VERIF, "out")
+BUILD = os.environ.get("VERIF_BUILD", os.path.join(VERIF, "build"))      # scratch runs against a mutated copy of the repository use their own
+OUT = os.environ.get("VERIF_OUT", os.path.join(VERIF, "out"))
+EVIDENCE = os.environ.get("VERIF_EVIDENCE", os.path.join(VERIF, "evidence"))
 SPEC = os.path.join(VERIF, "spec")
 TLA_JAR = "/opt/veriftools/tla/tla2tools.jar"
 NCPU = os.cpu_count() or 4
@@ -34,7 +35,7 @@ def make(variant, *targets, extra=None):
     lock = open(os.path.join(BUILD, ".lock-" + variant), "w")
     fcntl.flock(lock, fcntl.LOCK_EX)
     try:
-        cmd = ["make", "-C", os.path.join(VERIF, "harness"), "-j%d" % NCPU, "V=" + variant, "REPO=" + REPO]
+        cmd = ["make", "-C", os.path.join(VERIF, "harness"), "-j%d" % NCPU, "V=" + variant, "REPO=" + REPO, "BROOT=" + BUILD]
         cmd += ["bin/" + t for t in targets] if targets else ["lib"]
         if extra: cmd += extra
         t0 = time.time()
@@ -237,8 +238,8 @@ class Verdict:
               "assumptions": assumptions, "wall_s": round(time.time() - self.t0, 2), "violations": len(self.violations),
               "known_findings_reproduced": sorted(self.known_hit), "drift": self.drift,
               "repo_head": _git_head(), "repo_dirty": _git_dirty()}
-        os.makedirs(os.path.join(VERIF, "evidence"), exist_ok=True)
-        with open(os.path.join(VERIF, "evidence", self.pid + ".json"), "w") as f: json.dump(ev, f, indent=1, default=str)
+        os.makedirs(EVIDENCE, exist_ok=True)
+        with open(os.path.join(EVIDENCE, self.pid + ".json"), "w") as f: json.dump(ev, f, indent=1, default=str)
         return ev
 
     def exit_code(self):
